@@ -3,7 +3,7 @@
     echo '<spec json>' | /venv/bin/python -m vlib.c15jobs            (PYTHONPATH=$VERIF_REPO:/verif)
 
 spec = {"scratch": dir, "steps": [step, ...]}
-step = {"job": name, "reuse": "none"|"dict"|"driver"}            run one job
+step = {"job": name, "reuse": "none"|"dict"|"driver"|"engine"}   run one job ("engine": same MD/optimiser object)
      | {"set_threads": n}                                         torch.set_num_threads(n)
      | {"interleave": [name, ...], "order": "joint"|"fifo"|"lifo"}  forwards of several differentiable jobs, then
                                                                    one joint backward (or separate backwards in the
@@ -75,6 +75,18 @@ JOBS = {
                     "steps": 2, "dt": 0.5, "Temp": 400.0, "seed": 11, "damp": 20.0},
     "md_xl_h2o": {"kind": "md", "engine": "xl", "mol": "H2O", "gs": 43, "sett": _s("AM1", 1e-7, [2]), "sig": "m3",
                   "steps": 3, "dt": 0.4, "Temp": 300.0, "seed": 5, "k": 5},
+    "md_ksa_h2o": {"kind": "md", "engine": "ksa", "mol": "H2O", "gs": 46, "sett": _s("AM1", 1e-7, [2]), "sig": "m4",
+                   "steps": 3, "dt": 0.4, "Temp": 300.0, "seed": 9, "k": 5},
+    # second trajectories for the same engine objects (same template = same "sig", other geometry / seed)
+    "md_bomd_h2o_b": {"kind": "md", "engine": "basic", "mol": "H2O", "gs": 47, "sett": _s("AM1", 1e-8, [2]), "sig": "m1",
+                      "steps": 2, "dt": 0.5, "Temp": 300.0, "seed": 8},
+    "md_lang_nh3_b": {"kind": "md", "engine": "langevin", "mol": "NH3", "gs": 48, "sett": _s("PM3", 1e-7, [1]), "sig": "m2",
+                      "steps": 2, "dt": 0.5, "Temp": 400.0, "seed": 12, "damp": 20.0},
+    "md_xl_h2o_b": {"kind": "md", "engine": "xl", "mol": "H2O", "gs": 49, "sett": _s("AM1", 1e-7, [2]), "sig": "m3",
+                    "steps": 3, "dt": 0.4, "Temp": 300.0, "seed": 6, "k": 5},
+    "md_ksa_h2o_b": {"kind": "md", "engine": "ksa", "mol": "H2O", "gs": 50, "sett": _s("AM1", 1e-7, [2]), "sig": "m4",
+                     "steps": 3, "dt": 0.4, "Temp": 300.0, "seed": 10, "k": 5},
+    "opt_sd_h2o_b": {"kind": "opt", "mol": "H2O", "gs": 55, "sett": _s("AM1", 1e-8, [2]), "sig": "o1", "steps": 3, "alpha": 2e-3},
     "xl_eval_ch2o": {"kind": "xl", "mol": "CH2O", "gs": 44, "sett": _s("AM1", 1e-9, [2]), "sig": "x1"},
     "opt_sd_h2o": {"kind": "opt", "mol": "H2O", "gs": 45, "sett": _s("AM1", 1e-8, [2]), "sig": "o1", "steps": 3, "alpha": 2e-3},
     # --- calls that must raise (C18 inputs) -- history noise and targets
@@ -85,6 +97,7 @@ JOBS = {
                       "sig": "r4", "expect": "raises"},
 }
 GRAD_JOBS = [k for k, v in JOBS.items() if v["kind"] == "grad"]
+ENGINE_JOBS = [k for k, v in JOBS.items() if v["kind"] in ("md", "opt")]
 RAISE_JOBS = [k for k, v in JOBS.items() if v.get("expect") == "raises"]
 
 
@@ -202,16 +215,21 @@ class _Registry:
         """-> (settings dict, driver-or-None, info)"""
         spec = JOBS[job]
         sig = spec["sig"]
-        info = {"dict_reused": False, "driver_reused": False, "dict_first_elements": None, "driver_elements": None}
+        info = {"dict_reused": False, "driver_reused": False, "engine_reused": False, "dict_first_elements": None,
+                "driver_elements": None}
         if reuse == "none" or sig not in self.d:
             sett = copy.deepcopy(spec["sett"])
-            ent = {"sett": sett, "driver": None, "first": job, "driver_for": None}
+            ent = {"sett": sett, "driver": None, "first": job, "driver_for": None, "engine": None}
             if reuse != "none":
                 self.d[sig] = ent
             return sett, None, info, ent
         ent = self.d[sig]
         info["dict_reused"] = True
         info["dict_first_elements"] = elements(ent["first"])
+        if reuse == "engine" and ent.get("engine") is not None:
+            info["engine_reused"] = True
+            info["driver_elements"] = ent["driver_for"]
+            return ent["sett"], None, info, ent
         if reuse == "driver" and ent["driver"] is not None:
             info["driver_reused"] = True
             info["driver_elements"] = ent["driver_for"]
@@ -306,7 +324,7 @@ def _run_job(job, reuse, reg, scratch, idx, extra):
     sett, driver, info, ent = reg.get(job, reuse, make)
     extra.update(info)
     els = elements(job)
-    if info["driver_reused"] and not set(els) <= set(info["driver_elements"] or []):
+    if (info["driver_reused"] or info["engine_reused"]) and not set(els) <= set(info["driver_elements"] or []):
         extra["driver_reused_with_new_elements"] = True
     if kind == "sp":
         mol = _build(job, sett)
@@ -339,19 +357,26 @@ def _run_job(job, reuse, reg, scratch, idx, extra):
         es(mol, P0=D, dm_prop="XL-BOMD", xl_bomd_params={"k": 6})
         _harvest(mol, es, arrays)
     elif kind == "md":
-        from seqm.MolecularDynamics import XL_BOMD, Molecular_Dynamics_Basic, Molecular_Dynamics_Langevin
+        from seqm.MolecularDynamics import KSA_XL_BOMD, XL_BOMD, Molecular_Dynamics_Basic, Molecular_Dynamics_Langevin
 
         mol = _build(job, sett)
         out = {"molid": [0], "prefix": os.path.join(scratch, "s%d_%s" % (idx, job)), "print every": 0,
                "checkpoint every": 0, "xyz": 0, "h5": {"data": 1, "coordinates": 1, "velocities": 1, "forces": 1}}
-        if spec["engine"] == "basic":
+        if info["engine_reused"]:
+            md = ent["engine"]  # the very same engine object runs a second trajectory on a fresh Molecule
+        elif spec["engine"] == "basic":
             md = Molecular_Dynamics_Basic(seqm_parameters=sett, timestep=spec["dt"], Temp=spec["Temp"], output=out)
         elif spec["engine"] == "langevin":
             md = Molecular_Dynamics_Langevin(damp=spec["damp"], seqm_parameters=sett, timestep=spec["dt"],
                                              Temp=spec["Temp"], output=out)
+        elif spec["engine"] == "ksa":
+            md = KSA_XL_BOMD(xl_bomd_params={"k": spec["k"], "max_rank": 2, "err_threshold": 0.0, "T_el": 300.0},
+                             damp=None, seqm_parameters=sett, timestep=spec["dt"], Temp=spec["Temp"], output=out)
         else:
             md = XL_BOMD(xl_bomd_params={"k": spec["k"]}, damp=None, seqm_parameters=sett, timestep=spec["dt"],
                          Temp=spec["Temp"], output=out)
+        if reuse == "engine" and not info["engine_reused"]:
+            ent["engine"], ent["driver_for"] = md, sorted(set(sett.get("elements", els)) - {0})
         md.run(mol, spec["steps"], seed=spec["seed"])
         arrays["md_x"] = _npy(mol.coordinates)
         arrays["md_v"] = _npy(mol.velocities)
@@ -361,7 +386,12 @@ def _run_job(job, reuse, reg, scratch, idx, extra):
         from seqm.MolecularDynamics import Geometry_Optimization_SD
 
         mol = _build(job, sett)
-        opt = Geometry_Optimization_SD(sett, alpha=spec["alpha"], force_tol=1e-9, max_evl=spec["steps"])
+        if info["engine_reused"]:
+            opt = ent["engine"]
+        else:
+            opt = Geometry_Optimization_SD(sett, alpha=spec["alpha"], force_tol=1e-9, max_evl=spec["steps"])
+            if reuse == "engine":
+                ent["engine"], ent["driver_for"] = opt, sorted(set(sett.get("elements", els)) - {0})
         opt.run(mol, log=False)
         arrays["md_x"] = _npy(mol.coordinates)
         arrays["Etot"] = _npy(mol.Etot)
